@@ -764,6 +764,13 @@ package frugal
 //@   noescape
 
 // ---- routing (C01) on the NATS response path ------------------------------------------------------------------------
+// A response (no status header) is routed by its own _opid header and by nothing else: the whole message
+// goes to ExecuteFrame once and the handler itself dispatches nothing.
+//@ func lib.fNatsTransport.handler(f, msg)
+//@   ensures ncalls("nats.go.Header.Get") == 1
+//@   ensures callret("nats.go.Header.Get", 0, 0) == "" ==> ncalls("lib.fBaseTransport.ExecuteFrame") == 1 && callarg("lib.fBaseTransport.ExecuteFrame", 0, 1) == msg.Data && ncalls("lib.fRegistry.dispatch") == 0
+//@   ensures callret("nats.go.Header.Get", 0, 0) != "" ==> ncalls("lib.fBaseTransport.ExecuteFrame") == 0 && ncalls("lib.fRegistry.dispatch") <= 1
+//@   modifies *
 //@ func lib.fNatsTransport.handleServiceNotAvailable(f, opId)
 //@   ensures ncalls("lib.fRegistry.dispatch") == 1
 //@   ensures callarg("lib.fRegistry.dispatch", 0, 1) == opId
